@@ -1,11 +1,15 @@
 #!/bin/sh
 # Re-runs the quick check of a seeded change's property against /repo with the change applied, stores the output as
-# seeded/<name>/check.log and reverts /repo.  Usage: tools_recheck.sh <seed name>...
+# seeded/<name>/check.log and reverts /repo; the property's evidence file is saved and restored.  Usage: tools_recheck.sh <seed name>...
 for NAME in "$@"; do
   D=/verif/seeded/$NAME
   ID=$(echo $NAME | cut -d- -f1)
   git -C /repo apply $D/patch.diff || { echo "$NAME: patch does not apply"; continue; }
+  mkdir -p /var/tmp/p; cp /verif/evidence/$ID.json /var/tmp/p/evidence_recheck_keep_$ID.json 2>/dev/null
   /verif/bin/phqv $ID --tier quick > $D/check.log 2>&1
+  RC=$?
+  rm -f /verif/evidence/$ID.json; mv /var/tmp/p/evidence_recheck_keep_$ID.json /verif/evidence/$ID.json 2>/dev/null
+  (exit $RC)
   echo "$NAME: exit $? ; $(grep -c '^VIOLATION' $D/check.log) VIOLATION lines, $(grep -c 'no-failing-input-found' $D/check.log) without failing input"
   git -C /repo checkout -- .
 done
